@@ -189,7 +189,7 @@ def rule_once(ctx, f):
             if seg in ("get_or_init", "get_or_try_init"):
                 n += 1
                 ctx.ok("C13-ONCE", "%s#%s" % (b["id"], seg), "atomic initialisation")
-            if seg == "set":
+            if seg in ("set", "try_insert"):
                 n += 1
                 # is the Err of `set` consumed as a failure? (map_err / ? / match)  `let _ = cell.set(..)` is fine
                 d = t["dest"][0] if t.get("dest") else None
@@ -219,7 +219,7 @@ def rule_excl(ctx, f):
     # every method of the cache trait other than the compute-once look-up removes entries
     impls = [im for im in f.impls if im.get("trait") == "file::Cache"]
     muts = sorted({nm for im in impls for nm, bid in im["items"]} - {"get_or_compute"})
-    ctx.floor("C13-EXCL", len(impls), 2, "implementations of file::Cache (NoCache, SyncCache adapter)")
+    ctx.floor("C13-EXCL", len(impls), 1, "implementations of file::Cache (NoCache; with the `cache` feature also the SyncCache adapter)")
     ctx.floor("C13-EXCL", len(muts), 1, "entry-removing methods of file::Cache (clear)")
     n = 0
     for b in f.bodies.values():
